@@ -4,59 +4,82 @@ from common import *
 CLAIMED = True
 LEVEL = 'proof'
 LEVEL_TEXT = (
-    'Proof: coq/Model/Overflow.v gives, for each covered Rust function f, an executable boolean f_ok that conjoins, in source order, '
-    '"this intermediate fits its Rust type (i32/u32/i64/u64/usize), this divisor is not zero, this debug_assert holds" for every arithmetic '
-    'site of f and of the callees it reaches. coq/Properties/C08.v proves (lia/nia, no axioms) C08_<f>_total: f_ok = true for ALL '
-    'display-scale inputs (|coordinate| <= 1024, extents <= 1024, stroke widths and offsets <= 128, edge lines of thick segments within '
-    '+-1800, mono fonts up to 64 px cells and 65536 characters, line heights <= 1024 px / 400 %) for Point/Size/Rectangle operations, '
-    'PrimitiveStyle stroke/fill areas, Circle/Ellipse contains + center_2x + thresholds + offset, EllipseQuadrant, CornerRadii::confine, '
-    'Line delta/perpendicular/midpoint, BresenhamParameters, the complete Line::points loop (exactly major_length <= 2049 steps), '
-    'increase/decrease_error, next_all/previous_all and ParallelsIterator::next per step with inductive invariants, '
-    'ParallelsIterator::new / ThickPoints::new (i64 threshold), LinearEquation, IntersectionParams (i64 numerators, round_div), the join '
-    'points (|coordinate| <= 25921801 proved: SaturatingAs never saturates, `intersection - mid` cannot overflow) and the miter test, Triangle area_doubled / contains (whole path), mono text layout (baseline offset, measure_string, draw_string, line advance), '
-    'LineHeight, ImageRaw bytes_per_row / data_width / draw / draw_sub_image / pixel, ContiguousPixels (every step safe; stops after '
-    'exactly w*h+1 calls) and Cropped. Tie 1 (translator): translate/gen_arith.py regenerates from the tree under test the '
-    'identifier-free skeleton of every arithmetic / cast / index / unwrap site of every non-test function of 22 source files; '
-    'C08_sites_covered (vm_compute reflection) requires each to equal the skeleton the predicate was written against, be literal-only, '
-    'or be in the explicit unmodelled list, so a new or changed unchecked operation in a covered function breaks a proof obligation. '
-    'Tie 2 (correspondence): both oracles evaluate f_ok versus "did the real function panic" (overflow checks + debug assertions on) '
-    'on inputs straddling every boundary (2^15, 2^16, 2^31, 2^32, 2^63 ...), far outside display scale. '
-    'Search p_total (implementation only): every drawable family, null font, adapter stacks, default and fixed_point builds: no panic, '
-    '0 heap allocations, step budget 16 x bounding-box area.')
+    'Proof for the listed functions, search for the rest. coq/Model/Overflow.v, Overflow2.v, OverflowWalk.v give, for each covered Rust '
+    'function f, an executable boolean f_ok that conjoins, in source order, "this intermediate fits its Rust type (i32/u32/i64/u64/usize), '
+    'this divisor is not zero, this index is in range, this debug_assert holds" for every site of f and of the callees it reaches. '
+    'coq/Properties/C08.v, C08_shapes.v, C08_bridge.v prove (lia/nia, no axioms) f_ok = true for ALL display-scale inputs '
+    '(|coordinate| <= 1024, extents <= 1024, stroke widths and offsets <= 128, mono fonts up to 64 px cells and 65536 characters, line '
+    'heights <= 1024 px / 400 %) for: Point/Size/Rectangle operations; PrimitiveStyle stroke/fill areas; Circle / Ellipse contains, center_2x, '
+    'thresholds, offset, styled constructors and scanline probes; EllipseQuadrant (on its real domain, corners up to 2048); '
+    'CornerRadii::confine (never enlarges a radius); RoundedRectangle quadrants, RoundedRectangleContains::new, contains (exact control flow) '
+    'and offset; Sector contains / thresholds and PlaneSector::point_type (normals as parameters); Line delta / perpendicular / midpoint; '
+    'the complete Line::points loop (exactly major_length <= 2049 steps); the WHOLE thick-line walk (ParallelsIterator::new for the three stroke '
+    'offsets, every next() incl. the next_parallel loop, ThickPoints with every Bresenham run, Line::extents, LineJoin::from_points from three '
+    'display-scale vertices), composed from the line builder\'s state invariant and the join builder\'s extents range; LinearEquation, '
+    'IntersectionParams, join points (|coordinate| <= 25921801: SaturatingAs never saturates) and the miter test; Triangle area_doubled / '
+    'contains (whole path), sorted_clockwise, edge intersections; polyline vertex translation; Scanline; thick segment iterators; mono text '
+    'layout, MonoFont::glyph, decoration boxes, glyph mapping ranges; LineHeight; ImageRaw bytes_per_row / data_width / draw / draw_sub_image / '
+    'pixel; ContiguousPixels (stops after exactly w*h+1 calls) and Cropped; solid and dotted rectangle borders (integer part). Documented panics '
+    '(Index, from_slice, new_const, ClosedThickSegmentIter::new with one point) are stated with their exact precondition (iff). '
+    'Rejection: SubImage::new handles every area outside the recorded class K08_subimage_area_overflow for ALL machine inputs '
+    '(C08_shapes_sub_image_new_total); the class itself is a recorded finding with a machine-checked witness. '
+    'Tie 1 (translator): translate/gen_arith.py regenerates from the tree under test the identifier-free skeleton (operators, arithmetic / '
+    'saturating / checked methods, calls of the crate\'s arithmetic helpers, casts, conversions, indexing, unwrap, panicking macros, guards '
+    'against literals, grouping) of every non-test function of 74 source files; C08_sites_covered (vm_compute reflection) requires each to '
+    'equal the recorded skeleton or be literal-only; unmodelled_fns is empty. Functions covered by another part (C08_raw, C08_targets, '
+    'C08_image) or consisting of Real / f32 arithmetic are recorded by reference / as search-only, so that a change forces a re-read. '
+    'Tie 2 (correspondence): 26 ok_* suites compare f_ok with "did the real function panic" (overflow checks + debug assertions) on inputs '
+    'straddling every boundary, far outside display scale, incl. the whole thick-line walk, extents and joins through verif_hooks. '
+    'Search p_total (implementation only): every drawable family and constructor, null font, degenerate objects, 7x7 contains grid, 9 adapter '
+    'stacks, rejections, default and fixed_point builds: no panic, 0 heap allocations, step budget 16 x bounding-box area, 30 s watchdog.')
 LEVEL_NOTE = (
     'NOT modelled, hence not proved: heap allocation of the compiled crate (supporting evidence only: the counting global allocator of '
-    'the harness reads 0 around every library call of p_total; the translator asserts #![no_std] in both lib.rs and finds no alloc::/std:: '
-    'path outside test code) and the internals of the dependency crates (az, micromath, fixed, float-cmp, byteorder). '
-    'The f_ok predicates are hand-written; they are tied to the code by the skeleton check (structure of the arithmetic, not its operands) '
-    'and by differential testing, not proved equal to the Rust code. Totality of whole draw() calls is assembled from per-function and '
-    'per-step theorems only for Line::points, ContiguousPixels and text lines; for thick lines, joins (Line::extents), scanline fills, arcs '
-    'and sectors the composition is covered by the p_total search, not by a theorem (see PARTIAL). usize is a parameter (>= 32 bit) in the '
-    'theorems and 64 bit in the correspondence. debug_assert!s are treated as panic sites (the harness profile enables them).')
-RULE = ('correspondence ok_*: f_ok (model) vs panic / no panic (implementation, overflow checks + debug assertions) for 17 suites on '
+    'the harness reads 0 around every library call of p_total; C08_no_std_scan states the facts of the translator\'s scan: both crates '
+    '#![no_std], 0 alloc:: / std:: paths outside test code in the 114 files scanned) and the internals of the dependency crates (az, '
+    'micromath, fixed, float-cmp, byteorder): Real / Angle arithmetic (trigonometry, dotted border positions, bevel angles) is external and '
+    'covered by the search on both feature sets only. The f_ok predicates are hand-written; they are tied to the code by the skeleton check '
+    '(shape of the arithmetic, not its operands) and by differential testing, not proved equal to the Rust code. Totality of whole draw() '
+    'calls is a theorem for Line::points, thick lines, extents, joins, ContiguousPixels and text lines; for scanline fills (circle, ellipse, '
+    'rounded rectangle, triangle, polyline), arcs and sectors the per-probe / per-step predicates are proved on the range of the stroke '
+    'area but the iterators are not modelled as loops: their composition is covered by p_total (see PARTIAL). usize is a parameter '
+    '(>= 32 bit) in the theorems and 64 bit in the correspondence. debug_assert!s are treated as panic sites. The ok_* comparison is '
+    'verdict-level (OK / PANIC), not per site.')
+RULE = ('correspondence ok_*: f_ok (model) vs panic / no panic (implementation, overflow checks + debug assertions) for 26 suites on '
         'boundary-straddling inputs (i32/u32 edges, 2^15..2^16 for products, 2^63 for the thick-line threshold, custom mono fonts, '
-        'verif_hooks line equations); distinct = distinct case lines, every result is OK or PANIC (both verdicts occur in every suite). '
+        'verif_hooks line equations / extents / joins, whole thick lines, rounded rectangles, styled circles / ellipses, documented panics); '
+        'distinct = distinct case lines, every result is OK or PANIC (both verdicts occur in every suite). '
         'search p_total: every drawable family x boundary-biased display-scale values (coordinates and sizes from '
-        '{0,1,2,63..65,255..257,240,320,480,1023,1024} and negatives, corner-biased vertices, stroke widths {0,1,2,3,63..65,127,128}, '
-        'line heights up to 1024 px / 400 %, display-scale images, null font x 4 baselines x 3 alignments), every query and draw, 9 adapter '
-        'stacks (clipped / cropped / translated / colour-converted with degenerate areas) and out-of-range rejections, in a build with '
-        'overflow checks and debug assertions, counting global allocator, explicit step budget; arc/sector cases and every 4th other case '
-        'again on the fixed_point build (p_fixed_point lines).')
-ASSUMPTIONS = ['display scale as stated in each theorem (ds_* / edge_* predicates of coq/Model/Overflow.v); outside it f_ok may be false '
+        '{0,1,2,63..65,255..257,240,320,480,1023,1024} and negatives, corner-biased vertices, zero-length lines, coincident and collinear '
+        'vertices, stroke widths {0,1,2,3,63..65,127,128}, dotted rectangles with widths 1..128, line heights up to 1024 px / 400 %, '
+        'display-scale images, null font x 4 baselines x 3 alignments), every query (contains on a 7x7 grid + corners) and draw, the other '
+        'public constructors, 9 adapter stacks, out-of-range rejections incl. extreme sub image areas (class K08_subimage_area_overflow), '
+        'in a build with overflow checks and debug assertions, counting global allocator, explicit step budget, watchdog; all arc / sector / '
+        'dotted rectangle cases and a random quarter of the rest again on the fixed_point build (p_fixed_point lines).')
+ASSUMPTIONS = ['display scale as stated in each theorem (ds_* / edge_* / pbound predicates of coq/Model/Overflow.v); outside it f_ok may be false '
                '(and the code then panics with overflow checks: the correspondence suites exercise exactly that)',
-               'the join theorems (C08_join_edges_total ...) take the four edge lines of the thick segments as inputs, within +-1800 '
-               '(= display scale + twice the maximal stroke width); that Line::extents stays in this range is not proved']
+               'genuine panics of public operators are preconditions of their theorems: Size - Size needs b <= a, Point / Size division needs '
+               'a non-zero divisor, Index needs idx < 2, Triangle::from_slice needs 3 points, ImageRaw::new_const the exact data length',
+               'C08_is_collapsed_step_total assumes the inner corner of the join within +-131072']
 TRUSTED = ['translate/gen_arith.py (tokeniser-level skeletons; operands are not compared, only the shape of the arithmetic)',
-           'the mapping function -> predicate in translate/record_skeletons.py / the `recorded` table is maintained by hand',
+           'the mapping function -> predicate in translate/record_skeletons.py / the `recorded` table is maintained by hand (its 4th column is a '
+           'comment; it is checked dynamically only for the functions that have an ok_* suite)',
            'modelled, not verified: az::SaturatingAs, i32 `/` as Z.quot, u32 and usize `/` as Z.div, `as` between equal-width integers as wrap']
 PARTIAL = [
     'Triangle::is_collapsed: C08_is_collapsed_step_total assumes the inner corner of the join within +-131072 (the proved bound of a '
     'join point is 25921801, which is not enough for the i32 dot product of check_side); covered by p_total',
-    'OriginLinearEquation::with_angle: only the integer part (rotate_90 of the scaled cosine / sine, |.| <= 1025) is modelled; the '
-    'trigonometry itself is an external call (micromath / fixed)',
-    'no ok_* correspondence (skeleton tie + p_total only) for: circle/ellipse offset, EllipseQuadrant, increase/decrease_error, next_all / '
-    'previous_all, ParallelsIterator::next, miter, text lines, ImageRaw draw/pixel, ContiguousPixels, Cropped (image and raw parts: C08_image, C08_raw)',
-    'files outside translate/gen_arith.py FILES (arc, sector, polyline, scanline fills, styled iterators, mono font draw target, framebuffer) '
-    'are covered by p_total only',
+    'families with per-probe / per-step theorems only (the iterator loops themselves are not modelled; composition by p_total): circle / '
+    'ellipse / rounded rectangle scanline and styled iterators, DistanceIterator, arc and sector points / styled pixels, triangle scanline '
+    'iterator and styled triangle, polyline points / scanline iterator / styled polyline, ThickSegment::intersection and '
+    'edges_bounding_box, Scanline::bresenham_intersection, text draw through MonoFontDrawTarget (glyph pixels)',
+    'no theorem at all, search only: Real / Angle arithmetic (geometry/real.rs, angle.rs: trigonometry table and f32 / I16F16 operators), '
+    'PlaneSector::new, the bevel part of sector/styled.rs StyledPixelsIterator::new, the dot positions of dotted rectangle borders '
+    '(rectangle/styled.rs dot_positions_*), OriginLinearEquation::with_angle beyond its integer part',
+    'recorded by reference to another part instead of re-proved: load_store.rs, iterator/raw.rs, framebuffer.rs (C08_raw); draw_target/*.rs, '
+    'iterator/pixel.rs (C08_targets); image/sub_image.rs (C08_image)',
+    'no ok_* correspondence (skeleton tie + p_total only) for: EllipseQuadrant alone (covered through ok_rrect_contains), increase / '
+    'decrease_error and next_all / previous_all alone (covered through ok_extents / ok_thick_points), text lines, ImageRaw draw / pixel, '
+    'ContiguousPixels, Cropped (image and targets parts), the predicates of Model/Overflow2.v other than rrect contains and the styled '
+    'circle / ellipse constructors',
 ]
 
 B = [0, 1, 2, 63, 64, 65, 255, 256, 257, 240, 320, 480, 1023, 1024]
@@ -211,6 +234,20 @@ def cases(tier, rng):
         yield J('ok_tri_contains', *tv, *q)
         if m <= 1000:
             yield J('ok_tri_contains', *tv, rng.randrange(-m, m + 1), rng.randrange(-m, m + 1))
+        # rounded rectangle contains: quadrant corners near the i32 edge, radii near 2^15..2^16 (u64 products of squares), inside / outside queries
+        rx, ry = rng.choice([0, -1000, 1024, I32 - 3000, -I32, ei(rng)]), rng.choice([0, 1024, -I32, I32 - 70000, ei(rng)])
+        rw, rh = rng.choice([0, 1, 10, 1024, 2000, 65536, 2 ** 20, eu(rng)]), rng.choice([0, 1, 10, 1024, 65535, 2 ** 31 - 1, eu(rng)])
+        rad = [rng.choice([0, 1, 5, 500, 1024, 32767, 32768, 46341, 65536, 2 ** 20, eu(rng)]) for _ in range(8)]
+        qx_, qy_ = ci(rx + rng.choice([0, 1, rw // 2, max(rw - 1, 0), rw, -1])), ci(ry + rng.choice([0, 1, rh // 2, max(rh - 1, 0), rh, -1]))
+        yield J('ok_rrect_contains', rx, ry, rw, rh, *rad, qx_, qy_)
+        rr_ = (rng.randrange(-1024, 1025), rng.randrange(-1024, 1025), rng.randrange(0, 1025), rng.randrange(0, 1025))
+        yield J('ok_rrect_contains', *rr_, *[rng.randrange(0, 1025) for _ in range(8)], ci(rr_[0] + rng.randrange(-2, rr_[2] + 3)), ci(rr_[1] + rng.randrange(-2, rr_[3] + 3)))
+        # styled circle / ellipse constructors: stroke / fill area offsets, centre, thresholds
+        sd = rng.choice([0, 1, 5, 65535, 65536, 65537, 2 ** 31 - 1, 2 ** 31, 2 ** 32 - 1, eu(rng)])
+        swd = rng.choice([0, 1, 2, 128, 65536, 2 ** 31 - 1, 2 ** 31, 2 ** 32 - 1, eu(rng)])
+        yield J('ok_styled_circle', ei(rng), ei(rng), sd, 0, swd, rng.randrange(3))
+        yield J('ok_styled_ellipse', ei(rng), ei(rng), sd, rng.choice([sd, 3, 65536, eu(rng)]), swd, rng.randrange(3))
+        yield J('ok_styled_circle', rng.randrange(-1024, 1025), rng.randrange(-1024, 1025), rng.randrange(0, 1025), 0, rng.randrange(0, 129), rng.randrange(3))
         yield J('ok_index', rng.choice([0, 1, 2, 3, 2 ** 31, 2 ** 40]))
         yield J('ok_from_slice', rng.randrange(0, 6))
         cw_, ch_, cb_ = rng.randrange(0, 20), rng.randrange(0, 9), rng.choice([1, 8, 16, 24])
